@@ -75,6 +75,19 @@ func (s *Sink) Mixed(a int64, str string, b bool) int64 {
 	return r
 }
 
+// Sink2 is a second receiver type with the same method names (and the same functions) at other positions of its method set:
+// which type is called first must not matter to the other.
+type Sink2 struct{}
+
+func (s *Sink2) Aardvark() int64                         { return -1 }
+func (s *Sink2) Bumblebee(x int64) int64                 { return -x }
+func (s *Sink2) Sub2(a, b int64) int64                   { return a - b }
+func (s *Sink2) Weighted(xs ...int64) int64              { return (&Sink{}).Weighted(xs...) }
+func (s *Sink2) Cat(parts ...string) string              { return strings.Join(parts, "") }
+func (s *Sink2) Lead(a int64, rest ...int64) int64       { return (&Sink{}).Lead(a, rest...) }
+func (s *Sink2) Mixed(a int64, str string, b bool) int64 { return (&Sink{}).Mixed(a, str, b) }
+func (s *Sink2) Zebra() int64                            { return -2 }
+
 // receivers of the current batch (read-only during a run)
 var sinkStrs = map[int64]string{}
 
@@ -285,7 +298,7 @@ func builtinText(c *exprCase, key int64, style int) string {
 	case "Abs", "Floor", "Ceil", "Round", "Max", "Min":
 		return c.Fn + "(" + list + ")"
 	case "Sub2", "Weighted", "Cat", "Mixed", "Lead":
-		return "S." + c.Fn + "(" + list + ")"
+		return []string{"S.", "S2."}[int(key)%2] + c.Fn + "(" + list + ")"
 	}
 	recv := strconv.Quote(cpString(c.Recv))
 	if style%2 == 1 {
@@ -410,6 +423,7 @@ func evalBatch(jobs []job, style int) (*Sink, map[int64]string) {
 		s := newSink()
 		dc := ast.NewDataContext()
 		dc.Add("S", s)
+		dc.Add("S2", &Sink2{})
 		err := eng.Execute(dc, kb)
 		if err == nil {
 			return s, errs
@@ -464,6 +478,20 @@ func cmdExprReplay(args []string) {
 	defer of.Close()
 	w := bufio.NewWriter(of)
 	defer w.Flush()
+	// every process first calls each method of the two receiver types in a fixed order (S, then S2): what a later call
+	// computes may not depend on which type was served first, and a single replayed case then sees the same history
+	func() {
+		lib := ast.NewKnowledgeLibrary()
+		must(builder.NewRuleBuilder(lib).BuildRuleFromResource("w", "1", pkg.NewBytesResource([]byte(
+			`rule Warm { when true then S.PutI(0 - 1, S.Sub2(1, 2) + S.Weighted(1, 2) + S.Lead(1) + S.Mixed(1, "a", true) + S.Cat("a").Len());
+			 S.PutI(0 - 2, S2.Sub2(1, 2) + S2.Weighted(1, 2) + S2.Lead(1) + S2.Mixed(1, "a", true) + S2.Cat("a").Len()); Retract("Warm"); }`))))
+		kb, err := lib.NewKnowledgeBaseInstance("w", "1")
+		must(err)
+		dc := ast.NewDataContext()
+		dc.Add("S", newSink())
+		dc.Add("S2", &Sink2{})
+		_ = (&engine.GruleEngine{MaxCycle: 3}).Execute(dc, kb)
+	}()
 	sc := bufio.NewScanner(f)
 	sc.Buffer(make([]byte, 1<<20), 1<<24)
 	var jobs []job
